@@ -1337,6 +1337,10 @@ class ContactHandler(Messenger, dbus.service.Object):
         Messenger.recv_xfer_data(self, transfer_id, flags, data, ext_items)
 
         if flags & messages.TransferSegment.Flag.START:
+            if self._rx_tmp is not None or transfer_id in self._rx_map:
+                # one transfer at a time, and each ID only once: the one
+                # in progress (or waiting to be popped) is not replaced
+                raise RejectError(messages.RejectMsg.Reason.UNEXPECTED)
             self._rx_setup(transfer_id, None)
 
         elif self._rx_tmp is None or self._rx_tmp.transfer_id != transfer_id:
